@@ -19,6 +19,11 @@ def _xs(rng, n, kind):
             out.append(x)
             x += float(rng.choice([1, 1, 1, 2, 3, 10, 50]))
         return out
+    if kind == 'offset':
+        # time stamps / addresses: a large offset with a small step (the chord's intercept cancels catastrophically)
+        x0 = rng.choice([1.0e6, 1.7e9, 1.0e12, -5000.0, -1.0e6])
+        step = rng.choice([1.0, 0.125, 0.5, 60.0])
+        return [x0 + step * i for i in range(n)]
     if kind == 'jitter':
         # an index grid 0..n-1 whose interior samples are displaced (end points stay exactly 0 and n-1)
         out = [float(i) for i in range(n)]
@@ -38,7 +43,7 @@ def gen_curve(rng, n, family=None, scale=True):
     """Return (family, [[x, y], ...]) with n >= 2 points."""
     if family is None:
         family = rng.choice(FAMILIES)
-    xs = _xs(rng, n, rng.choice(['int', 'int', 'gaps', 'real', 'jitter']))
+    xs = _xs(rng, n, rng.choice(['int', 'int', 'gaps', 'real', 'jitter', 'offset']))
     ys = []
     if family == 'mrc':
         a = rng.uniform(0.5, 50)
@@ -136,14 +141,14 @@ def gen_curve(rng, n, family=None, scale=True):
     return family, pts
 
 
-BLOCKY = [255, 256, 257, 511, 512, 513, 1023, 1024, 1025, 1536, 2047, 2048, 2049, 4096, 4097]
+BLOCKY = [255, 256, 257, 511, 512, 513, 1023, 1024, 1025, 1536, 2047, 2048, 2049, 4096, 4097, 8191, 8192, 8193, 16384, 16385]
 
 
 def draw_n(rng, tier):
     r = rng.random()
     if r < (0.012 if tier == 'quick' else 0.03):
         # long curves at and around block sizes (chunked / vectorised implementations change path there)
-        return rng.choice(BLOCKY[:9] if tier == 'quick' else BLOCKY)
+        return rng.choice(BLOCKY[:9] + ([8192] if rng.random() < 0.15 else []) if tier == 'quick' else BLOCKY)
     if r < 0.5:
         return rng.randint(2, 8)
     if r < 0.9 or tier == 'quick' and r < 0.97:
